@@ -76,8 +76,8 @@ def run(ctx):
         ctx.mc("InFlowMC", "InFlowConnMCThorough.cfg", workers=2)
         expect_violated(ctx, "InFlowLit.cfg", "I_Literal", "literal reading of 'restored to at least the configured window'")
         expect_violated(ctx, "InFlowCapNL.cfg", "I_NoViol", "cap exceeded by a limit raise while maybeAdjust's extra window is outstanding")
-        graphs.append(("InFlowGenThorough.cfg", ctx.dump_graph("InFlowMC", "InFlowGenThorough.cfg", workers=8), 40000))
-        graphs.append(("InFlowGenNLThorough.cfg", ctx.dump_graph("InFlowMC", "InFlowGenNLThorough.cfg", workers=8), 20000))
+        graphs.append(("InFlowGenThorough.cfg", ctx.dump_graph("InFlowMC", "InFlowGenThorough.cfg", workers=8), 8000))
+        graphs.append(("InFlowGenNLThorough.cfg", ctx.dump_graph("InFlowMC", "InFlowGenNLThorough.cfg", workers=8), 4000))
         graphs.append(("InFlowConnMC.cfg", ctx.dump_graph("InFlowMC", "InFlowConnMC.cfg", workers=2), None))
     ctx.neg("InFlowMC", "InFlowNeg.cfg", expect="I_NoWedge", workers=2)
 
@@ -100,7 +100,7 @@ def run(ctx):
         sub = [b for b in bs if any(st["a"] == "request" and st["n"] + c["Limit"] >= c["MaxWin"] for st in b)
                and not any(st["a"] in ("newlimit", "trnewlimit") for st in b)]
         ctx.rng.shuffle(sub)
-        for b in sub[:ctx.pick(100, 5000)]:
+        for b in sub[:ctx.pick(100, 1000)]:
             behs.append([init2] + b)
             ctx.count(["shifted"] + b, nontrivial=True)
     ctx.sample(behs[len(behs) // 2])
@@ -109,7 +109,7 @@ def run(ctx):
     t_replay = os.path.join(ctx.run, "trace-replay.ndjson")
     ctx.driver(binary, "TestVerifC04Replay", {"VERIF_BEHAVIOURS": bpath, "VERIF_OUT": t_replay})
     t_random = os.path.join(ctx.run, "trace-random.ndjson")
-    n = ctx.pick(30, 1500)
+    n = ctx.pick(30, 300)
     ctx.driver(binary, "TestVerifC04Random", {"VERIF_OUT": t_random, "VERIF_N": n})
     ctx.count({"random_histories": n, "seed": ctx.seed}, n=n)
     t_big = os.path.join(ctx.run, "trace-big.ndjson")
